@@ -28,6 +28,12 @@ pub fn rt_check(v: &[u8]) -> Option<String> {
             Ok(e2) => if e2 != l.extensions { return Some(format!("extensions of b\"{}\" print \"{}\", which re-parses to a different ExtensionsMap", crate::esc(v), es)); },
             Err(e) => return Some(format!("extensions of b\"{}\" print \"{}\", which does not re-parse: {:?}", crate::esc(v), es, e)),
         }
+        // C04: the output is the fixpoint of the independent canonicaliser (reference.rs, written from the statement) and
+        // canonicalize is never longer than its input
+        if crate::reference::ref_locale(s.as_bytes()).ok().as_deref() != Some(s.as_str()) {
+            return Some(format!("to_string of b\"{}\" is \"{}\", which the independent canonicaliser maps to {:?} (not canonical)", crate::esc(v), s, crate::reference::ref_locale(s.as_bytes())));
+        }
+        if s.len() > v.len() { return Some(format!("canonical form \"{}\" is longer than the input b\"{}\"", s, crate::esc(v))); }
         // canonicalize is idempotent
         let c1 = unic_locale_impl::canonicalize(v).ok();
         let c2 = c1.as_ref().and_then(|c| unic_locale_impl::canonicalize(c).ok());
